@@ -93,6 +93,7 @@ class Automaton(object):
         self.kick_on_disconnect = None   # addr to kick from inside the next disconnect event
         self.shutdown_with_kick = False
         self.kick_on_connect = set()
+        self.sdisc_t = {}      # id(connection) -> (instant, addr) of the application's disconnect() call on a connected client
         self.flags = set()
         self.watches = {}      # id(client obj) -> ConnWatch (observation only), attached at the connect event
         self.handled = {}      # id(client obj) -> set of message seqnums handed to handle_message
@@ -136,6 +137,7 @@ class Automaton(object):
             if c.addr in self.kick_on_connect:
                 self.kick_on_connect.discard(c.addr)
                 self.sdisc.add(id(c))
+                self.sdisc_t[id(c)] = (w.clock.t, c.addr)
                 c.disconnect()                 # a server-initiated disconnect issued from inside the connect event
                 self.flags.add("kick-from-connect-event")
             if not proof:
@@ -162,6 +164,7 @@ class Automaton(object):
                 self.kick_on_disconnect = None
                 if victim is not None and victim is not c:
                     self.sdisc.add(id(victim))
+                    self.sdisc_t[id(victim)] = (w.clock.t, victim.addr)
                     victim.disconnect()        # a server-initiated disconnect issued from inside a handler event
                     if self.shutdown_with_kick:
                         self.shutdown_with_kick = False
@@ -192,6 +195,16 @@ class Automaton(object):
     def check_tokens(self):
         if self.pending:
             raise self.pending[0]
+        # a server-initiated disconnect is reported: the disconnect event follows the application's disconnect() call within
+        # a few loop passes (it is not left to the silence timeout or to shutdown)
+        now = self.w.clock.t
+        for k, (t, addr) in list(self.sdisc_t.items()):
+            if self.state.get(k) == "disconnected" or self.w.state == "dead" or self.shutdown_requested:
+                del self.sdisc_t[k]
+            elif self.state.get(k) == "connected" and now - t > 0.25:
+                del self.sdisc_t[k]
+                self.ctx.violation("server-disconnect-not-reported", "the application called disconnect() on connected client %s at t=%.3f; "
+                                   "%.2f s later no disconnect event was raised for it" % (addr, t, now - t))
         toks = {}
         for addr, c in self.w.ctxt.connections.items():
             if c.token in toks:
@@ -228,6 +241,7 @@ def body(ctx, c):
         def on_msg(client, seq, msg):
             if sdisc_msg.pop(client.addr, None):
                 auto.sdisc.add(id(client))
+                auto.sdisc_t[id(client)] = (w.clock.t, client.addr)
                 client.disconnect()
         w.on_server_message.append(on_msg)
         dt = 0.017
@@ -379,6 +393,7 @@ def body(ctx, c):
                     if o[2] == "update":
                         def act(conn=conn):
                             auto.sdisc.add(id(conn))
+                            auto.sdisc_t[id(conn)] = (w.clock.t, conn.addr)
                             conn.disconnect()
                         w.on_server_thread(act)
                         step(2)
